@@ -1,8 +1,9 @@
 #!/bin/bash
-# runs every confirmed seed (or those matching the glob $1, default C*) against its property's quick check;
+# runs every confirmed seed (or those matching the globs given as arguments, default C*) against its property's quick check;
 # records the outcome in seeded/<id>/meta.json.  A round-2 first-run result is kept under detected_by.first_run_result.
 cd /verif
-for d in seeded/${1:-C*}/; do
+[ $# -eq 0 ] && set -- 'C*'
+for g in "$@"; do for d in seeded/$g/; do
   sid=$(basename $d); pid=${sid:0:3}
   [ -f $d/patch.diff ] || continue
   out=$(bin/seedtest.sh /verif/$d/patch.diff $pid --tier quick 2>&1)
@@ -22,4 +23,4 @@ m["detected_by"]=new
 json.dump(m,open(p,"w"),indent=1)
 print(sid, "detected" if rc=="1" else "MISSED rc="+str(rc), obs, flush=True)
 PY
-done
+done; done
